@@ -289,8 +289,8 @@ def r3_size_agreement(ctx):
 LEAKS = ('std::mem::forget', 'std::mem::ManuallyDrop::new')   # giving up ownership of a box without freeing it
 
 
-def r4_node_typestate(ctx):
-    ctx.set_rule('C15.R4')
+def r4_node_typestate(ctx, rule='C15.R4'):
+    ctx.set_rule(rule)
     P = ctx.P
     f = ctx.anchor(L + '::add')
     if f:
